@@ -702,7 +702,14 @@ def attach_idx(hub=HUB, sample_every=1):
     def wrap_container_method(name, where):
         def make(orig):
             def method(self, *a, **k):
-                res = orig(self, *a, **k)
+                try:
+                    res = orig(self, *a, **k)
+                except BaseException:
+                    # a refused or failing call may leave records behind; whatever it leaves must still be indexed consistently
+                    if hub.enabled["IDX"] and not hub.quiet:
+                        hub.counts["IDX.at_exceptional_exit"] += 1
+                        idx_check_tree(_root_of(self), where + ".raised", hub)
+                    raise
                 if hub.enabled["IDX"] and not hub.quiet:
                     tick[0] += 1
                     if tick[0] % sample_every == 0:
@@ -715,7 +722,7 @@ def attach_idx(hub=HUB, sample_every=1):
 
         return make
 
-    for cls, names in ((pm.ProvBundle, ("new_record", "update", "unified")),
+    for cls, names in ((pm.ProvBundle, ("new_record", "add_record", "update", "unified")),
                        (pm.ProvDocument, ("update", "add_bundle", "bundle", "unified", "flattened"))):
         for n in names:
             hub.patch(cls, n, wrap_container_method(n, "%s.%s" % (cls.__name__, n)))
